@@ -503,6 +503,10 @@ class Prog:
         """closure def id -> (creator Body, bi, si, ops)"""
         if self._closure_sites is None:
             C = {}
+            A = {}
+            # a helper that inline.py spliced into its caller stays in the program: its closures are then created twice, in the helper
+            # and in the spliced copy — the copy (where the rules look) is preferred
+            spliced = {r.get('tree') for r in (getattr(self, 'renamed', None) or []) if r.get('kind') == 'inlined-helper'}
             for b in self.user_bodies():
                 for bi, bl in enumerate(b.blocks):
                     if bl['cleanup']:
@@ -510,9 +514,21 @@ class Prog:
                     for si, s in enumerate(bl['s']):
                         if s['k'] == 'assign' and s['r']['k'] == 'agg' and s['r'].get('ak') in (
                                 'closure', 'coroutine', 'coroutineclosure'):
-                            C[s['r']['def']] = (b, bi, si, s['r']['ops'])
+                            site = (b, bi, si, s['r']['ops'])
+                            A.setdefault(s['r']['def'], []).append(site)
+                            if s['r']['def'] not in C or C[s['r']['def']][0].id in spliced:
+                                C[s['r']['def']] = site
             self._closure_sites = C
+            self._closure_sites_all = A
         return self._closure_sites
+
+    def closure_site_in(self, cdef, body_id):
+        """the creation site of closure cdef inside body body_id (a spliced helper's closure has one site per copy), else the default one"""
+        self.closure_sites()
+        for site in self._closure_sites_all.get(cdef, []):
+            if site[0].id == body_id:
+                return site
+        return self._closure_sites.get(cdef)
 
     def variant_of_discr(self, adt, val):
         a = self.adts.get(adt)
